@@ -243,6 +243,53 @@ pub fn network_topology_strategy(
 mod tests {
     use super::*;
 
+    // The 7-node / 2-DC fixture ring and the expected replica sets below are the
+    // literals of the repo's own tests (scylla/src/routing/locator/test.rs).
+    fn fixture() -> (Vec<(i64, usize)>, Vec<RingNode>) {
+        let n = |id: usize, dc: &str, rack: &str| RingNode { id, dc: dc.into(), rack: rack.into() };
+        let nodes = vec![
+            n(1, "eu", "r1"), n(2, "eu", "r1"), n(3, "eu", "r1"), n(4, "us", "r1"),
+            n(5, "us", "r1"), n(6, "us", "r2"), n(7, "eu", "r2"),
+        ];
+        let ring: Vec<(i64, usize)> = vec![
+            (50, 1), (100, 2), (150, 5), (200, 6), (250, 1), (300, 3), (350, 4), (400, 1), (450, 6),
+            (500, 7), (550, 4), (600, 2), (650, 3), (700, 3), (750, 5), (800, 7), (900, 2),
+        ];
+        (ring, nodes)
+    }
+
+    fn set(v: Vec<usize>) -> std::collections::BTreeSet<usize> {
+        v.into_iter().collect()
+    }
+
+    #[test]
+    fn simple_strategy_fixture() {
+        let (ring, _) = fixture();
+        assert_eq!(set(simple_strategy(&ring, 450, 3)), set(vec![6, 7, 4]));
+        assert_eq!(set(simple_strategy(&ring, 450, 4)), set(vec![6, 7, 4, 2]));
+        assert_eq!(set(simple_strategy(&ring, 201, 4)), set(vec![1, 3, 4, 6]));
+        assert!(simple_strategy(&ring, 201, 0).is_empty());
+    }
+
+    #[test]
+    fn nts_fixture() {
+        let (ring, nodes) = fixture();
+        let rf = |eu: usize, us: usize| vec![("eu".to_string(), eu), ("us".to_string(), us)];
+        assert_eq!(set(network_topology_strategy(&ring, &nodes, 75, &rf(1, 1))), set(vec![2, 5]));
+        // "NTS takes the first 2 nodes from that list - {B, E} and the last one - G
+        //  because it is the only eu node that lives on rack r2."
+        assert_eq!(set(network_topology_strategy(&ring, &nodes, 75, &rf(2, 1))), set(vec![2, 5, 7]));
+        let unknown = vec![("unknown".to_string(), 2), ("us".to_string(), 1)];
+        assert_eq!(set(network_topology_strategy(&ring, &nodes, 75, &unknown)), set(vec![5]));
+    }
+
+    #[test]
+    fn shard_of_fixture() {
+        // Literals of scylla/src/routing/sharding.rs test_shard_of.
+        assert_eq!(shard_of(-9219783007514621794, 4, 12), 3);
+        assert_eq!(shard_of(9222582454147032830, 4, 12), 3);
+    }
+
     #[test]
     fn murmur_vectors() {
         // Vectors present as literals in the driver's own unit tests
